@@ -15,7 +15,8 @@ from typing import (
 
 from ..exc import ExtensionError, SDLError
 from ..lang import ast as _ast, parse
-from ..schema import NamedType, ObjectType, Schema
+from ..schema import SPECIFIED_SCALAR_TYPES, NamedType, ObjectType, Schema
+from ..schema.introspection import INTROPSPECTION_TYPES
 from .ast_type_builder import ASTTypeBuilder
 from .schema_directives import TSchemaDirective, apply_schema_directives
 
@@ -228,10 +229,13 @@ def extend_schema(
     ]
 
     # Cast is safe as type defs will always lead to named types and not wrapped types
+    # All the existing types are carried over, not only the extension targets:
+    # types which cannot be reached from the root types through fields
+    # (implementations of an interface, unreferenced types) would be lost.
     types = [
         cast(NamedType, builder.extend_type(t))
         for t in schema.types.values()
-        if t.name in type_exts
+        if t not in SPECIFIED_SCALAR_TYPES and t not in INTROPSPECTION_TYPES
     ] + [
         cast(NamedType, builder.extend_type(builder.build_type(t)))
         for t in type_defs.values()
